@@ -27,6 +27,12 @@ def chr (c : Char) : P Unit := fun i =>
 /-- `space0`: spaces and tabs. -/
 def space0 : Input → Input := fun i => i.dropWhile (fun c => c == ' ' || c == '\t')
 
+/-- winnow's `space1`: at least one blank or tab. -/
+def space1 (i : Input) : Option Input :=
+  match i with
+  | c :: _ => if c == ' ' || c == '\t' then some (space0 i) else none
+  | [] => none
+
 /-- winnow's `AsChar::is_alphanum` for `char`: ASCII letters and digits. -/
 def isAlphanum (c : Char) : Bool :=
   ('a' ≤ c && c ≤ 'z') || ('A' ≤ c && c ≤ 'Z') || ('0' ≤ c && c ≤ '9')
@@ -287,15 +293,24 @@ def mapP {β γ : Type} (p : P β) (f : β → Option γ) : P γ := fun i =>
 def parseInstruction : P (List (Instr Float)) := fun i0 =>
   let i := space0 i0
   firstOf [
-    -- "point" ws label
+    -- "point" space1 label   (a blank is required: `point1.x = 3` is about the label `point1`)
     fun i => match tag "point" i with
-      | some (_, r) => (parseLabel (space0 r)).map fun (l, r) => ([.declarePoint l], r)
+      | some (_, r) =>
+        match space1 r with
+        | some r' => (parseLabel r').map fun (l, r) => ([.declarePoint l], r)
+        | none => none
       | none => none,
     fun i => match tag "circle" i with
-      | some (_, r) => (parseLabel (space0 r)).map fun (l, r) => ([.declareCircle l], r)
+      | some (_, r) =>
+        match space1 r with
+        | some r' => (parseLabel r').map fun (l, r) => ([.declareCircle l], r)
+        | none => none
       | none => none,
     fun i => match tag "arc" i with
-      | some (_, r) => (parseLabel (space0 r)).map fun (l, r) => ([.declareArc l], r)
+      | some (_, r) =>
+        match space1 r with
+        | some r' => (parseLabel r').map fun (l, r) => ([.declareArc l], r)
+        | none => none
       | none => none,
     -- label '.' component '=' number
     fun i => match parseLabel i with
